@@ -59,7 +59,8 @@ def directed():
     reaches only rarely: a precompiled header next to generated headers, a
     generated header produced from another target's output"""
     B = dict(kind='', name='', srcs=[], libs=[], ins=[], nouts=1,
-             always=False, deps=[], dist=True, pch=False, xdeps=[], hdr=False)
+             always=False, deps=[], dist=True, pch=False, xdeps=[], hdr=False,
+             mode='copy')
 
     def F(f):
         return {'f': f, 't': ''}
@@ -93,6 +94,14 @@ def directed():
         dict(B, kind='test', name='t4', deps=['t2', 't1']),
         dict(B, kind='test', name='t5', deps=['t3']),
         dict(B, kind='default', name='t6', deps=['t3'])])
+    # copies and symbolic links of built files, and what consumes them
+    for mode in ('copy', 'symlink'):
+        out.append([
+            dict(B, kind='step', name='t1', ins=[F('d1')]),
+            dict(B, kind='copy', name='t2', ins=[T('t1')], mode=mode),
+            dict(B, kind='step', name='t3', ins=[T('t2')]),
+            dict(B, kind='exe', name='t4', srcs=[F('s1')], xdeps=['t2']),
+            dict(B, kind='default', name='t5', deps=['t3', 't4'])])
     # always-outdated steps with one and with two outputs, and their consumers
     for nouts in (1, 2):
         out.append([
